@@ -47,6 +47,17 @@ class Multiplication:
       if distribute == None:
         distribute = "auto"
       track_origin = True
+    # the arguments are checked before anything is changed
+    if not isinstance(factor, int) or isinstance(factor, bool):
+      raise gfapy.ArgumentError("Mulitiplication factor must be an integer"+
+          " ({} found)".format(repr(factor)))
+    if distribute and distribute not in self.LINKS_DISTRIBUTION_POLICY:
+      raise gfapy.ArgumentError("Unknown links distribution policy {}\n".format(\
+          distribute)+"accepted values are: {}".format(\
+          ", ".join(self.LINKS_DISTRIBUTION_POLICY)))
+    if track_origin and origin_tag in ["KC", "RC", "FC", "LN"]:
+      raise gfapy.ArgumentError(
+          "The tag {} cannot be used to track the origin".format(origin_tag))
     if factor < 0:
       raise gfapy.ArgumentError("Mulitiplication factor must be >= 0"+
           " ({} found)".format(factor))
